@@ -169,6 +169,13 @@ class Runner:
             if kind == "M":
                 tokens.append(self._mem(ctx))
                 continue
+            if kind == "W":
+                # the operator edits settings.json (used by C12's restart histories only: the `window` setting
+                # takes effect at the next load; the persistence model has one window size per history)
+                self._write_settings(dict(case, window=int(ev[1:]), disk=None), basedir)
+                tokens.append("w")
+                log.append({"ev": "W", "lifetime": lifetime, "res": "w", "window": int(ev[1:])})
+                continue
             if kind == "L":
                 fx.echo = int(ev[1:]).to_bytes(8, "big")
                 if ctx is None:
@@ -238,6 +245,9 @@ class Runner:
                             res = "R"
                         except oscore.ProtectionInvalid:
                             res = "P"
+                        except Exception as e:           # anything else is an observation the oracle judges
+                            res = "X"
+                            obs["exc"] = type(e).__name__
                     elif kind == "S":
                         ctx.__del__()
                         ctx = None
